@@ -15,8 +15,8 @@
    the manager goroutine alone. *)
 From Coq Require Import List Arith Bool String.
 From JT.Base Require Import Sched.
-From JT.Model Require Import Race.
-From JT.Proofs Require Import Race_proofs.
+From JT.Model Require Import Race RaceN.
+From JT.Proofs Require Import Race_proofs RaceN_proofs.
 Import ListNotations.
 
 (* the repaired code: no schedule has a data race *)
@@ -106,3 +106,66 @@ Example C18_tables_n_agree :
       Bool.eqb (call_ok_n (nm (fst f)) (nm (fst g))) (call_ok (fst f) (fst g)) &&
       Bool.eqb (spawn_ok_n (nm (fst f)) (nm (fst g))) (spawn_ok (fst f) (fst g))) fun_table) fun_table = true.
 Proof. vm_compute. auto. Qed.
+
+(* ---------------------------------------------------------------- any number of connections
+   Model/RaceN.v: N connections side by side, each making the steps of the one-connection model under its own
+   names (NT c t, NL c l, NK c k), sharing the ONE accepting goroutine NMain, the ONE manager goroutine NMgr
+   and the ONE registry location NReg (the manager's map with its session structs).  A schedule is a list
+   of (connection, choice): every interleaving of every number of connections. *)
+Theorem C18_race_free_N : forall sched, nraces (trace (nstep repaired) ninit sched) = [].
+Proof. exact nrace_free. Qed.
+Print Assumptions C18_race_free_N.
+
+Theorem C18_disciplined_N : forall sched,
+  exists m, gmon_run ntid nloc ntok ntid_eqb nloc_eqb ntok_eqb (gmon0 ntid nloc ntok)
+              (trace (nstep repaired) ninit sched) = Some m.
+Proof. exact nconn_disciplined. Qed.
+Print Assumptions C18_disciplined_N.
+
+(* non-vacuity: three connections interleaved (none of the 42 choices is skipped: 192 events); the shared
+   registry location is accessed on behalf of all three, always by NMgr; a defect in ONE connection among
+   three is seen; and two goroutines of different connections touching one location WOULD be a race *)
+Definition three_conns : list (nat * choice) :=
+  [(0, Boot); (1, Boot); (2, Boot); (0, RRead 0); (1, RRead 0); (0, RJoinSend 0); (1, RJoinSend 0); (1, MJoin); (0, MJoin);
+   (2, RRead 5); (0, RJoinAck); (1, RJoinAck); (0, RPush 0); (1, RPush 0); (0, CCall 0); (1, CCall 0); (2, CCall 0);
+   (1, MWrite 0); (0, MWrite 0); (2, MWrite 0); (0, WMsg 0 None); (1, WAct 0 true true); (0, WAct 0 true true); (2, CRet 0);
+   (1, RStop); (0, RRead 1); (1, MLeave); (0, RPush 1); (1, RStop2); (0, WMsg 1 (Some 0)); (1, TFire 0 true); (1, WSeeStop);
+   (0, CRet 0); (1, WStopOut 0); (1, CRet 0); (1, WExit); (0, TFire 0 false); (0, WCpl 0); (2, RStop); (2, MLeave); (2, RStop2);
+   (0, RStop)].
+
+Fixpoint n_enabled (s : nst) (sched : list (nat * choice)) : bool :=
+  match sched with
+  | [] => true
+  | c :: t => match nstep repaired s c with Some (s', _) => n_enabled s' t | None => false end
+  end.
+
+Definition reg_touchers (tr : list nev) : list ntid :=
+  flat_map (fun e : nev => match e with GAcc t NReg _ => [t] | _ => [] end) tr.
+
+Definition one_bad_of_three : list (nat * choice) :=
+  [(0, Boot); (1, Boot); (1, RRead 0); (1, RJoinSend 0); (0, RRead 0); (1, MJoin); (1, RJoinAck); (1, RPush 0); (1, CCall 0);
+   (1, MWrite 0); (1, RStop); (0, RPush 0); (1, MLeave); (1, RStop2); (1, WAct 0 true true)].
+
+Example C18_three_connections :
+  n_enabled ninit three_conns = true /\
+  List.length (trace (nstep repaired) ninit three_conns) = 192 /\
+  nraces (trace (nstep repaired) ninit three_conns) = [].
+Proof. vm_compute. repeat split. Qed.
+
+(* who touches THE registry location, over all three connections: the manager goroutine, 10 times *)
+Example C18_registry_is_the_managers :
+  forallb (fun t => ntid_eqb t NMgr) (reg_touchers (trace (nstep repaired) ninit three_conns)) = true /\
+  List.length (reg_touchers (trace (nstep repaired) ninit three_conns)) = 10.
+Proof. vm_compute. repeat split. Qed.
+
+(* connection 1 with clear(c.handles) back in stop while connection 0 goes on: the race is in connection 1 *)
+Example C18_one_bad_connection :
+  nraces (trace (nstep {| v_clear_handles := true; v_log_serial := false; v_share_header := false |}) ninit one_bad_of_three)
+  = [{| gr_loc := NL 1 LHandles; gr_first := NT 1 TReader; gr_second := NT 1 TWriter |}].
+Proof. vm_compute. reflexivity. Qed.
+
+(* were a location shared by goroutines of two connections, [nraces] would say so *)
+Example C18_cross_connection_race_is_seen :
+  nraces [GAcc (NT 0 TReader) NReg true; GAcc (NT 1 TReader) NReg false]
+  = [{| gr_loc := NReg; gr_first := NT 0 TReader; gr_second := NT 1 TReader |}].
+Proof. vm_compute. reflexivity. Qed.
